@@ -877,6 +877,43 @@ pub fn generate(ctx: &Ctx) {
   let gen_seed = format!(r#"{{"payload":"{pb}","signatures":[{{"protected":"{hb}","header":{{"nonce":"n"}},"signature":"{sig}"}},{{"protected":"{hb}","signature":"{sig}"}}]}}"#);
   run_tokens(ctx, "tokens: flattened JWS tree mutations", "Decoder::decode_flattened_serialization", &tree_space(&flat_seed, |s| s.to_string()), json!({"space": "every node x mutation menu"}));
   run_tokens(ctx, "tokens: general JWS tree mutations", "Decoder::decode_general_serialization", &tree_space(&gen_seed, |s| s.to_string()), json!({"space": "every node x mutation menu"}));
+  // the protected member of EVERY signature entry over a segment alphabet (1..=3 entries): single-node mutations of a
+  // two-entry token never make all entries undecodable at once
+  {
+    let segs: Vec<Option<String>> = vec![
+      None,
+      Some(hb.to_string()),
+      Some(String::new()),
+      Some("!!".into()),
+      Some(hdr_b64("not-json")),
+      Some(hdr_b64("[]")),
+      Some(hdr_b64("5")),
+      Some(hdr_b64("{}")),
+      Some(hdr_b64(r#"{"alg":5}"#)),
+      Some(hdr_b64(r#"{"alg":"EdDSA","b64":false,"crit":["b64"]}"#)),
+    ];
+    let entry = |p: &Option<String>| match p {
+      Some(p) => format!(r#"{{"protected":"{p}","signature":"{sig}"}}"#),
+      None => format!(r#"{{"header":{{"alg":"EdDSA"}},"signature":"{sig}"}}"#),
+    };
+    let mut toks = Vec::new();
+    let mut flat = Vec::new();
+    for a in &segs {
+      toks.push(format!(r#"{{"payload":"{pb}","signatures":[{}]}}"#, entry(a)));
+      if let Some(p) = a {
+        flat.push(format!(r#"{{"payload":"{pb}","protected":"{p}","signature":"{sig}"}}"#));
+        flat.push(format!(r#"{{"payload":"{pb}","protected":"{p}","header":{{"kid":"k"}},"signature":"{sig}"}}"#));
+      }
+      for b in &segs {
+        toks.push(format!(r#"{{"payload":"{pb}","signatures":[{},{}]}}"#, entry(a), entry(b)));
+        for c in &segs {
+          toks.push(format!(r#"{{"payload":"{pb}","signatures":[{},{},{}]}}"#, entry(a), entry(b), entry(c)));
+        }
+      }
+    }
+    run_tokens(ctx, "tokens: general JWS, protected member of every entry over a segment alphabet", "Decoder::decode_general_serialization", &toks, json!({"product": "10 protected alternatives ^ (1..=3 signature entries)"}));
+    run_tokens(ctx, "tokens: flattened JWS, protected member over a segment alphabet", "Decoder::decode_flattened_serialization", &flat, json!({"product": "9 protected alternatives x with/without unprotected header"}));
+  }
 
   // ---------------------------------------------------------------- verifiers: every key / signature shape
   let mut inputs = Vec::new();
